@@ -248,10 +248,13 @@ def ltStr : Str → Str → Bool
   | _ :: _, [] => false
   | a :: as, b :: bs => if a < b then true else if b < a then false else ltStr as bs
 
-/-- insert into a sorted duplicate-free key list -/
-def insertKey (k : Str) : List Str → List Str
+/-- insert into a sorted key list -/
+def insSorted (k : Str) : List Str → List Str
   | [] => [k]
-  | x :: xs => if k = x then x :: xs else if ltStr k x then k :: x :: xs else x :: insertKey k xs
+  | x :: xs => if ltStr k x then k :: x :: xs else x :: insSorted k xs
+
+/-- insert a map key: a key already present is not repeated -/
+def insertKey (k : Str) (l : List Str) : List Str := if k ∈ l then l else insSorted k l
 
 /-- the sorted distinct keys (`slices.Sort(keys)` over the map's keys) -/
 def sortedKeys (ps : List (Str × Str)) : List Str := ps.foldr (fun e acc => insertKey e.1 acc) []
